@@ -1,0 +1,92 @@
+//! Instrumented atomics (group: atomic). Same API subset as `std::sync::atomic`; every operation is
+//! preceded by the hook point `atomic`, so the deterministic driver can switch threads between any
+//! two atomic operations of the lock-free scheduling code (cursor.rs, context.rs,
+//! tx_dependency.rs) instead of only at the reporting hooks. See /verif/DESIGN.md.
+#![allow(missing_docs, missing_debug_implementations, unreachable_pub)]
+
+pub use std::sync::atomic::Ordering;
+use std::sync::atomic as real;
+
+#[derive(Debug, Default)]
+#[repr(transparent)]
+pub struct AtomicUsize(real::AtomicUsize);
+
+impl AtomicUsize {
+    #[inline]
+    pub const fn new(value: usize) -> Self {
+        Self(real::AtomicUsize::new(value))
+    }
+    /// Read without a hook point: for values a hook reports.
+    #[inline]
+    pub fn peek(&self) -> usize {
+        self.0.load(Ordering::SeqCst)
+    }
+    #[inline]
+    pub fn load(&self, order: Ordering) -> usize {
+        super::p0("atomic");
+        self.0.load(order)
+    }
+    #[inline]
+    pub fn store(&self, value: usize, order: Ordering) {
+        super::p0("atomic");
+        self.0.store(value, order)
+    }
+    #[inline]
+    pub fn fetch_add(&self, value: usize, order: Ordering) -> usize {
+        super::p0("atomic");
+        self.0.fetch_add(value, order)
+    }
+    #[inline]
+    pub fn fetch_max(&self, value: usize, order: Ordering) -> usize {
+        super::p0("atomic");
+        self.0.fetch_max(value, order)
+    }
+    #[inline]
+    pub fn fetch_min(&self, value: usize, order: Ordering) -> usize {
+        super::p0("atomic");
+        self.0.fetch_min(value, order)
+    }
+    #[inline]
+    pub fn compare_exchange(
+        &self,
+        current: usize,
+        new: usize,
+        success: Ordering,
+        failure: Ordering,
+    ) -> Result<usize, usize> {
+        super::p0("atomic");
+        self.0.compare_exchange(current, new, success, failure)
+    }
+    #[inline]
+    pub fn compare_exchange_weak(
+        &self,
+        current: usize,
+        new: usize,
+        success: Ordering,
+        failure: Ordering,
+    ) -> Result<usize, usize> {
+        super::p0("atomic");
+        self.0.compare_exchange_weak(current, new, success, failure)
+    }
+}
+
+#[derive(Debug, Default)]
+#[repr(transparent)]
+pub struct AtomicBool(real::AtomicBool);
+
+impl AtomicBool {
+    #[inline]
+    pub const fn new(value: bool) -> Self {
+        Self(real::AtomicBool::new(value))
+    }
+    #[inline]
+    pub fn load(&self, order: Ordering) -> bool {
+        super::p0("atomic");
+        self.0.load(order)
+    }
+    #[inline]
+    pub fn store(&self, value: bool, order: Ordering) {
+        super::p0("atomic");
+        self.0.store(value, order)
+    }
+}
